@@ -60,6 +60,23 @@ Definition last_segment (s : ustring) : ustring :=
   | None => s
   end.
 
+(* the segments of a path: split at every "::", scanning left to right
+   (specification vocabulary only; the code never splits the path) *)
+Fixpoint split_sep_aux (s : ustring) (acc : ustring) : list ustring :=
+  match s with
+  | [] => [rev acc]
+  | c :: t =>
+      match t with
+      | d :: t' => if (c =? colon) && (d =? colon) then rev acc :: split_sep_aux t' []
+                   else split_sep_aux t (c :: acc)
+      | [] => [rev (c :: acc)]
+      end
+  end.
+
+Definition split_sep (s : ustring) : list ustring := split_sep_aux s [].
+
+Definition no_colon (s : ustring) : Prop := Forall (fun c => c <> colon) s.
+
 (* ------------------------------------------------------------ settings *)
 
 Inductive crate_vers := CVVersion (v : version) | CVAny | CVNever.
